@@ -28,6 +28,7 @@ import (
 func EnsureAliases(c *core.Ctx) {
 	const rel = "protocol/binary"
 	if c.Pkg(rel) == nil {
+		c.ResolveAllAnchors()
 		return
 	}
 	have := func(canon string) bool { return c.LookupFunc(rel, canon) != nil }
@@ -185,4 +186,6 @@ func EnsureAliases(c *core.Ctx) {
 		set("Writer.writeField", only(layerCallees(get("Writer.writeStruct"), "Writer", nil)))
 	}
 	_ = sort.Strings
+	// everything else: by recorded fingerprint
+	c.ResolveAllAnchors()
 }
